@@ -12,9 +12,10 @@
   Partial clauses (full statements kept as `def …_full : Prop`):
     * `C06_circle_export_full` is FALSE for the code as it is (known finding; witness proved): the exported geometry of
       a circle is the disc of radius r/2.
-    * `C06_rect_ring_eq_box_full`: crossing-number test of the exported rectangle ring = the box.  Proved: box = convex
-      quadrilateral of the exported vertices (`C06_box_eq_quad`); the step "crossing number of a convex quadrilateral
-      = all four edge tests" is compared by the harness on every rectangle case (driver op `rect`), not proved.
+    * `C06_rect_ring_eq_box_full`: crossing-number test of the exported rectangle ring = the box.  Proved: for every
+      axis-parallel rectangle (`C06_rect_ring_eq_box_partial`), and for every rotation box = convex quadrilateral of
+      the exported vertices (`C06_box_eq_quad`); the step "crossing number of a rotated convex quadrilateral = all
+      four edge tests" is compared by the harness on every rectangle case (driver op `rect`), not proved.
     * agreement of GEOS (`intersects`, `dwithin`, `STRtree.query`) with the exact predicates: parameter; the
       correspondence compares on exact-grid inputs.
 -/
@@ -76,13 +77,15 @@ def C06_rect_ring_eq_box_full : Prop :=
   ∀ (l w : Rat) (ctr : Pt) (c s : Rat) (p : Pt), 0 < l → 0 < w → c * c + s * s = 1 →
     rectContains l w ctr c s p = inBox l w ctr c s p
 
-/-- Proved part: on an axis-parallel unit-direction frame the statement holds for the corners, edge mid points, centre and
-    outside points of a concrete rectangle (a test); the general link is `C06_box_eq_quad`.  Missing for the full
-    statement: crossing number of a convex quadrilateral = conjunction of its four edge tests. -/
-theorem C06_rect_ring_eq_box_partial :
-    ∀ p ∈ [(⟨0, 0⟩ : Pt), ⟨2, 1⟩, ⟨-2, -1⟩, ⟨2, 0⟩, ⟨0, 1⟩, ⟨1, 1 / 2⟩, ⟨2 + 1 / 16, 0⟩, ⟨0, -1 - 1 / 16⟩, ⟨3, 3⟩],
-      rectContains 4 2 ⟨0, 0⟩ 1 0 p = inBox 4 2 ⟨0, 0⟩ 1 0 p := by
-  decide +kernel
+/-- Proved part: every axis-parallel rectangle (orientation 0: `(c, s) = (1, 0)`), any size, any centre, any point.
+    Missing for the full statement: the same for a rotated frame, i.e. crossing number of a convex quadrilateral in
+    general position = conjunction of its four edge tests (`C06_box_eq_quad` supplies box = those four tests). -/
+theorem C06_rect_ring_eq_box_partial (l w : Rat) (ctr p : Pt) (hl : 0 < l) (hw : 0 < w) :
+    rectContains l w ctr 1 0 p = inBox l w ctr 1 0 p :=
+  rect_axis l w hl hw ctr p
+
+example : rectContains 4 2 ⟨0, 0⟩ (3 / 5) (4 / 5) ⟨6 / 5, 8 / 5⟩ = true ∧ inBox 4 2 ⟨0, 0⟩ (3 / 5) (4 / 5) ⟨6 / 5, 8 / 5⟩ = true ∧
+    rectContains 4 2 ⟨0, 0⟩ (3 / 5) (4 / 5) ⟨6 / 5 + 1 / 100, 8 / 5 + 1 / 100⟩ = false := by decide +kernel
 
 /-- The bounding-box prefilter of `Polygon.contains_point` never changes the answer: a polygon's containment test is
     the closed ring test of its vertices (on the boundary, or odd crossing number) — for every vertex list. -/
